@@ -91,12 +91,17 @@ pub fn generate(id: &str, run_seed: u64, _thorough: bool) -> Plan {
         "C05" => f_lease(run_seed, &LeaseOpts { modacks: true, limits: false }),
         "C06" => f_consumers(run_seed, pick < 50),
         "C07" => {
-            if pick < 60 {
+            if pick < 50 {
                 f_delete(run_seed, true)
-            } else if pick < 80 {
+            } else if pick < 65 {
                 f_delete(run_seed, false)
-            } else {
+            } else if pick < 80 {
                 f_general(run_seed, &GeneralOpts { stalls: false, ..full })
+            } else if pick < 90 {
+                // every lock path incl. the push loop and push subscriptions (lock-order rule)
+                f_general(run_seed, &GeneralOpts { stalls: false, push: true, ..full })
+            } else {
+                f_push(run_seed, false)
             }
         }
         "C08" => {
